@@ -463,10 +463,10 @@ def check_exact(case):
 
 
 @st.composite
-def spectral_cases(draw, tier):
-    hi = 6 if tier == "quick" else 8
-    m = draw(st.integers(1, hi))
-    n = draw(st.integers(1, hi))
+def spectral_cases(draw, tier, size=None):
+    lo_, hi = size or (1, 6 if tier == "quick" else 8)
+    m = draw(st.integers(lo_, hi))
+    n = draw(st.integers(lo_, hi))
     k = min(m, n)
     r = draw(st.sampled_from(list(range(1, k + 1)) * 3 + [0] + ([k - 1] * 2 if k >= 2 else [])
                              + ([k - 2] * 2 if k >= 3 else [])))
@@ -878,6 +878,8 @@ PROPERTY = Property(
         Clause("rank_null_exact_inputs", check_exact, strategy=exact_cases, budget={"quick": 2000, "thorough": 32000}),
         Clause("rank_null_prescribed_spectrum", check_spectral, strategy=spectral_cases,
                budget={"quick": 1600, "thorough": 28000}),
+        Clause("rank_null_moderate_size", check_spectral, strategy=lambda tier: spectral_cases(tier, size=(9, 20 if tier == "quick" else 40)),
+               budget={"quick": 40, "thorough": 400}, shrink=False),
         Clause("rank_null_long_dimension", check_exact, strategy=long_exact_cases, budget={"quick": 24, "thorough": 240},
                shrink=False),
         Clause("dieudonne", check_dieudonne, strategy=dieudonne_cases, budget={"quick": 800, "thorough": 16000}),
